@@ -16,6 +16,25 @@ pub open spec fn tn_within(q: &Query, t: TypeId, set: Seq<SelectionId>, d: nat) 
     })
 }
 pub open spec fn has_typename(q: &Query, t: TypeId, set: Seq<SelectionId>) -> bool { exists|d: nat| tn_within(q, t, set, d) }
+// ---- completeness of the search (C02: a document that selects `__typename` is accepted): the same relation with the fragments of v not followed
+pub open spec fn tn_avoid(q: &Query, t: TypeId, set: Seq<SelectionId>, v: ISet<ResolvedFragmentId>, d: nat) -> bool decreases d, 1nat
+{
+    exists|k: int| 0 <= k < set.len() && tn_entry(q, t, #[trigger] set[k], v, d)
+}
+pub open spec fn tn_entry(q: &Query, t: TypeId, e: SelectionId, v: ISet<ResolvedFragmentId>, d: nat) -> bool decreases d, 0nat
+{
+    (e.0 as int) < q.selections@.len() && (match q.selections@[e.0 as int] {
+        Selection::Typename => true,
+        Selection::FragmentSpread(g) => d > 0 && (g.0 as int) < q.fragments@.len() && q.fragments@[g.0 as int].on == t && !v.contains(g)
+            && tn_avoid(q, t, q.fragments@[g.0 as int].selection_set@, v, (d - 1) as nat),
+        _ => false,
+    })
+}
+pub open spec fn tn_reach(q: &Query, t: TypeId, set: Seq<SelectionId>, v: ISet<ResolvedFragmentId>) -> bool { exists|d: nat| tn_avoid(q, t, set, v, d) }
+// entering the fragments of v1 - v0 (and finding nothing there) hides no `__typename` from any other selection set
+pub open spec fn tn_carries(q: &Query, t: TypeId, v0: ISet<ResolvedFragmentId>, v1: ISet<ResolvedFragmentId>) -> bool {
+    forall|s: Seq<SelectionId>| #[trigger] tn_reach(q, t, s, v0) ==> tn_reach(q, t, s, v1)
+}
 pub mod sp_tn {
 use vstd::prelude::*;
 use super::*;
@@ -42,5 +61,187 @@ pub broadcast proof fn lemma_unv_frags_step(q: &Query, v0: ISet<ResolvedFragment
 {
     lemma_unv_frags_insert(q, v, g, q.fragments@.len() as int);
     lemma_unv_frags_mono(q, v0, v, q.fragments@.len() as int);
+}
+
+pub proof fn lemma_tn_depth(q: &Query, t: TypeId, set: Seq<SelectionId>, v: ISet<ResolvedFragmentId>, d: nat)
+    requires tn_avoid(q, t, set, v, d)
+    ensures tn_avoid(q, t, set, v, d + 1)
+    decreases d
+{
+    let k = choose|k: int| 0 <= k < set.len() && tn_entry(q, t, #[trigger] set[k], v, d);
+    if let Selection::FragmentSpread(g) = q.selections@[set[k].0 as int] {
+        lemma_tn_depth(q, t, q.fragments@[g.0 as int].selection_set@, v, (d - 1) as nat);
+    }
+    assert(tn_entry(q, t, set[k], v, d + 1));
+}
+pub proof fn lemma_tn_mono(q: &Query, t: TypeId, set: Seq<SelectionId>, v: ISet<ResolvedFragmentId>, w: ISet<ResolvedFragmentId>, d: nat)
+    requires tn_avoid(q, t, set, v, d), w.subset_of(v)
+    ensures tn_avoid(q, t, set, w, d)
+    decreases d
+{
+    let k = choose|k: int| 0 <= k < set.len() && tn_entry(q, t, #[trigger] set[k], v, d);
+    if let Selection::FragmentSpread(g) = q.selections@[set[k].0 as int] {
+        lemma_tn_mono(q, t, q.fragments@[g.0 as int].selection_set@, v, w, (d - 1) as nat);
+    }
+    assert(tn_entry(q, t, set[k], w, d));
+}
+// with nothing excluded it is the relation of the soundness direction
+pub proof fn lemma_tn_within_avoid(q: &Query, t: TypeId, set: Seq<SelectionId>, d: nat)
+    ensures tn_within(q, t, set, d) == tn_avoid(q, t, set, ISet::<ResolvedFragmentId>::empty(), d)
+    decreases d
+{
+    let v = ISet::<ResolvedFragmentId>::empty();
+    if tn_within(q, t, set, d) {
+        let k = choose|k: int| 0 <= k < set.len() && ((#[trigger] set[k]).0 as int) < q.selections@.len() && (match q.selections@[set[k].0 as int] {
+            Selection::Typename => true,
+            Selection::FragmentSpread(g) => d > 0 && (g.0 as int) < q.fragments@.len() && q.fragments@[g.0 as int].on == t
+                && tn_within(q, t, q.fragments@[g.0 as int].selection_set@, (d - 1) as nat),
+            _ => false,
+        });
+        if let Selection::FragmentSpread(g) = q.selections@[set[k].0 as int] {
+            lemma_tn_within_avoid(q, t, q.fragments@[g.0 as int].selection_set@, (d - 1) as nat);
+        }
+        assert(tn_entry(q, t, set[k], v, d));
+    }
+    if tn_avoid(q, t, set, v, d) {
+        let k = choose|k: int| 0 <= k < set.len() && tn_entry(q, t, #[trigger] set[k], v, d);
+        if let Selection::FragmentSpread(g) = q.selections@[set[k].0 as int] {
+            lemma_tn_within_avoid(q, t, q.fragments@[g.0 as int].selection_set@, (d - 1) as nat);
+        }
+    }
+}
+pub broadcast proof fn lemma_has_typename_reach(q: &Query, t: TypeId, set: Seq<SelectionId>)
+    ensures #[trigger] has_typename(q, t, set) == tn_reach(q, t, set, ISet::<ResolvedFragmentId>::empty())
+{
+    if has_typename(q, t, set) { let d = choose|d: nat| tn_within(q, t, set, d); lemma_tn_within_avoid(q, t, set, d); }
+    if tn_reach(q, t, set, ISet::<ResolvedFragmentId>::empty()) {
+        let d = choose|d: nat| tn_avoid(q, t, set, ISet::<ResolvedFragmentId>::empty(), d); lemma_tn_within_avoid(q, t, set, d);
+    }
+}
+// a path to `__typename` either never enters fragment g, or its part after the last entry of g is a path from g's own selection set
+pub proof fn lemma_tn_last_entry(q: &Query, t: TypeId, set: Seq<SelectionId>, v: ISet<ResolvedFragmentId>, g: ResolvedFragmentId, d: nat)
+    requires tn_avoid(q, t, set, v, d), (g.0 as int) < q.fragments@.len()
+    ensures tn_avoid(q, t, set, v.insert(g), d) || tn_avoid(q, t, q.fragments@[g.0 as int].selection_set@, v.insert(g), d)
+    decreases d
+{
+    let fg = q.fragments@[g.0 as int].selection_set@;
+    let k = choose|k: int| 0 <= k < set.len() && tn_entry(q, t, #[trigger] set[k], v, d);
+    match q.selections@[set[k].0 as int] {
+        Selection::FragmentSpread(h) => {
+            let fh = q.fragments@[h.0 as int].selection_set@;
+            lemma_tn_last_entry(q, t, fh, v, g, (d - 1) as nat);
+            if h == g {
+                lemma_tn_depth(q, t, fg, v.insert(g), (d - 1) as nat);
+            } else if tn_avoid(q, t, fh, v.insert(g), (d - 1) as nat) {
+                assert(tn_entry(q, t, set[k], v.insert(g), d));
+            } else {
+                lemma_tn_depth(q, t, fg, v.insert(g), (d - 1) as nat);
+            }
+        }
+        _ => { assert(tn_entry(q, t, set[k], v.insert(g), d)); }
+    }
+}
+pub proof fn lemma_tn_reach_last_entry(q: &Query, t: TypeId, set: Seq<SelectionId>, v: ISet<ResolvedFragmentId>, g: ResolvedFragmentId)
+    requires tn_reach(q, t, set, v), (g.0 as int) < q.fragments@.len()
+    ensures tn_reach(q, t, set, v.insert(g)) || tn_reach(q, t, q.fragments@[g.0 as int].selection_set@, v.insert(g))
+{
+    let d = choose|d: nat| tn_avoid(q, t, set, v, d);
+    lemma_tn_last_entry(q, t, set, v, g, d);
+}
+pub proof fn lemma_tn_reach_mono(q: &Query, t: TypeId, set: Seq<SelectionId>, v: ISet<ResolvedFragmentId>, w: ISet<ResolvedFragmentId>)
+    requires tn_reach(q, t, set, v), w.subset_of(v)
+    ensures tn_reach(q, t, set, w)
+{
+    let d = choose|d: nat| tn_avoid(q, t, set, v, d);
+    lemma_tn_mono(q, t, set, v, w, d);
+}
+// `__typename` reached from a prefix extended by one entry: from the prefix, or through that entry
+pub proof fn lemma_tn_push(q: &Query, t: TypeId, p: Seq<SelectionId>, e: SelectionId, v: ISet<ResolvedFragmentId>)
+    ensures tn_reach(q, t, p.push(e), v) == (tn_reach(q, t, p, v) || (exists|d: nat| tn_entry(q, t, e, v, d)))
+{
+    let pe = p.push(e);
+    if tn_reach(q, t, pe, v) {
+        let d = choose|d: nat| tn_avoid(q, t, pe, v, d);
+        let k = choose|k: int| 0 <= k < pe.len() && tn_entry(q, t, #[trigger] pe[k], v, d);
+        if k < p.len() { assert(p[k] == pe[k]); assert(tn_avoid(q, t, p, v, d)); } else { assert(pe[k] == e); }
+    }
+    if tn_reach(q, t, p, v) {
+        let d = choose|d: nat| tn_avoid(q, t, p, v, d);
+        let k = choose|k: int| 0 <= k < p.len() && tn_entry(q, t, #[trigger] p[k], v, d);
+        assert(pe[k] == p[k]);
+        assert(tn_avoid(q, t, pe, v, d));
+    }
+    if exists|d: nat| tn_entry(q, t, e, v, d) {
+        let d = choose|d: nat| tn_entry(q, t, e, v, d);
+        assert(pe[p.len() as int] == e);
+        assert(tn_avoid(q, t, pe, v, d));
+    }
+}
+// ---- one entry of the walk that did not find `__typename`
+// (a) an entry that is not followed: not `__typename`, not a spread of a fragment on t outside v
+pub proof fn lemma_tn_skip(q: &Query, t: TypeId, p: Seq<SelectionId>, e: SelectionId, v0: ISet<ResolvedFragmentId>, v: ISet<ResolvedFragmentId>)
+    requires !tn_reach(q, t, p, v0), tn_carries(q, t, v0, v), v0.subset_of(v), (e.0 as int) < q.selections@.len(),
+        !(q.selections@[e.0 as int] is Typename),
+        q.selections@[e.0 as int] matches Selection::FragmentSpread(g) ==> (g.0 as int) < q.fragments@.len() && (q.fragments@[g.0 as int].on != t || v.contains(g))
+    ensures !tn_reach(q, t, p.push(e), v0)
+{
+    lemma_tn_push(q, t, p, e, v0);
+    if exists|d: nat| tn_entry(q, t, e, v0, d) {
+        let d = choose|d: nat| tn_entry(q, t, e, v0, d);
+        // then the singleton [e] reaches it avoiding v0, hence avoiding v: but e is not followed there
+        assert(seq![e][0] == e);
+        assert(tn_avoid(q, t, seq![e], v0, d));
+        assert(tn_reach(q, t, seq![e], v0));
+        assert(tn_reach(q, t, seq![e], v));
+        let d2 = choose|d2: nat| tn_avoid(q, t, seq![e], v, d2);
+        let k = choose|k: int| 0 <= k < seq![e].len() && tn_entry(q, t, #[trigger] seq![e][k], v, d2);
+        assert(seq![e][k] == e);
+        assert(false);
+    }
+}
+// (b) a spread of a fresh fragment g on t whose own selection set (searched with g entered) has no `__typename`
+pub proof fn lemma_tn_entered(q: &Query, t: TypeId, p: Seq<SelectionId>, e: SelectionId, g: ResolvedFragmentId, v0: ISet<ResolvedFragmentId>, v: ISet<ResolvedFragmentId>, v1: ISet<ResolvedFragmentId>)
+    requires !tn_reach(q, t, p, v0), tn_carries(q, t, v0, v), v0.subset_of(v), (e.0 as int) < q.selections@.len(),
+        q.selections@[e.0 as int] == Selection::FragmentSpread(g), (g.0 as int) < q.fragments@.len(), q.fragments@[g.0 as int].on == t, !v.contains(g),
+        !tn_reach(q, t, q.fragments@[g.0 as int].selection_set@, v.insert(g)), tn_carries(q, t, v.insert(g), v1)
+    ensures !tn_reach(q, t, p.push(e), v0), tn_carries(q, t, v0, v1)
+{
+    let fg = q.fragments@[g.0 as int].selection_set@;
+    assert forall|s: Seq<SelectionId>| #[trigger] tn_reach(q, t, s, v0) implies tn_reach(q, t, s, v1) by {
+        assert(tn_reach(q, t, s, v));
+        lemma_tn_reach_last_entry(q, t, s, v, g);
+        assert(tn_reach(q, t, s, v.insert(g)));
+    }
+    lemma_tn_push(q, t, p, e, v0);
+    if exists|d: nat| tn_entry(q, t, e, v0, d) {
+        let d = choose|d: nat| tn_entry(q, t, e, v0, d);
+        assert(tn_avoid(q, t, fg, v0, (d - 1) as nat));
+        assert(tn_reach(q, t, fg, v0));
+        assert(tn_reach(q, t, fg, v));
+        lemma_tn_reach_last_entry(q, t, fg, v, g);
+        assert(false);
+    }
+}
+// a fragment on another type is never followed by the search on t: excluding it changes nothing
+pub proof fn lemma_tn_other_type(q: &Query, t: TypeId, set: Seq<SelectionId>, v: ISet<ResolvedFragmentId>, g: ResolvedFragmentId, d: nat)
+    requires tn_avoid(q, t, set, v, d), (g.0 as int) < q.fragments@.len(), q.fragments@[g.0 as int].on != t
+    ensures tn_avoid(q, t, set, v.insert(g), d)
+    decreases d
+{
+    let k = choose|k: int| 0 <= k < set.len() && tn_entry(q, t, #[trigger] set[k], v, d);
+    if let Selection::FragmentSpread(h) = q.selections@[set[k].0 as int] {
+        lemma_tn_other_type(q, t, q.fragments@[h.0 as int].selection_set@, v, g, (d - 1) as nat);
+    }
+    assert(tn_entry(q, t, set[k], v.insert(g), d));
+}
+pub proof fn lemma_tn_carries_other_type(q: &Query, t: TypeId, v0: ISet<ResolvedFragmentId>, v: ISet<ResolvedFragmentId>, g: ResolvedFragmentId)
+    requires tn_carries(q, t, v0, v), (g.0 as int) < q.fragments@.len(), q.fragments@[g.0 as int].on != t
+    ensures tn_carries(q, t, v0, v.insert(g))
+{
+    assert forall|s: Seq<SelectionId>| #[trigger] tn_reach(q, t, s, v0) implies tn_reach(q, t, s, v.insert(g)) by {
+        assert(tn_reach(q, t, s, v));
+        let d = choose|d: nat| tn_avoid(q, t, s, v, d);
+        lemma_tn_other_type(q, t, s, v, g, d);
+    }
 }
 } // mod sp_tn
